@@ -150,6 +150,21 @@ CHECKS = {
         "Trusted: as C03. Lists with duplicate lines are compared at the level of line sets.",
         "DESIGN.md 4/C11",
     ),
+    "C12": (
+        "exploration",
+        "complete enumeration of body-line sequences (valid / ignorable / invalid / over-limit / "
+        "blank lines) up to a length x class x platform with the root logger captured; accounting "
+        "identity checked per sequence",
+        "Every sequence with repetition of <=3 (quick) / <=4 (thorough) lines over a 15-line alphabet "
+        "for Acl(line=) and AceGroup(line=), and over 8-9 member lines for AddrGroup(line=) and "
+        "AddrGroup(items=), both platforms: construction raised a documented error (not allowed when "
+        "every line is valid or ignorable), or every invalid line is named in a log record (WARNING "
+        "for ACLs), ignorable lines are skipped, and the items are exactly the valid lines in order "
+        "with the same meaning (independent reader).",
+        "Trusted: reader for item meaning; 'reported' means the normalised line text occurs in a "
+        "record on the root logger.",
+        "DESIGN.md 4/C12",
+    ),
     "C13": (
         "exploration",
         "complete enumeration of ordered address pairs (nested chain of all 33 prefix lengths, "
